@@ -22,7 +22,7 @@ Definition fn_of (pc : pcl) : fn :=
   | NTF | N1 | N2 | FN1 => FN
   | PN1 => FPN
   | PF1 => FPF
-  | R1pre | R1 | R2 | R3 | R4 | R5 | R6 | R6b | R7 | R8 | R9 | R10 | KC | R11 | R12
+  | R1pre | R1 | R2 | R3 | R1n | R2n | R4 | R5 | R6 | R6b | R7 | R8 | R9 | R10 | KC | R11 | R12
   | V1 | V5 | V6 | VK | V4 => FTR
   | C1 | C2 => FC
   | _ => FTop
